@@ -522,6 +522,11 @@ func (sc *serverConn) handleStreams() {
 	var reqTimerArmed bool
 	var openStreams int
 
+	// highestRefused is the highest stream id this endpoint has refused. A
+	// refused stream never becomes sc.lastID, which is what GOAWAY reports as
+	// possibly processed, but its id is spent all the same.
+	var highestRefused uint32
+
 	// curInitialWindow tracks the client's SETTINGS_INITIAL_WINDOW_SIZE, which
 	// is the send window every new stream starts with. It starts at the spec
 	// default of 65535; the client's SETTINGS frames are forwarded to this
@@ -920,7 +925,7 @@ loop:
 
 				// An id below the latest one is not a new stream, and is wrong
 				// whether or not there is room for one more.
-				if fr.Stream() < sc.lastID {
+				if fr.Stream() < sc.lastID || fr.Stream() < highestRefused {
 					sc.writeGoAway(fr.Stream(), ProtocolError, "stream ID is lower than the latest")
 
 					if canCloseAfterGoAway() {
@@ -947,6 +952,12 @@ loop:
 					}
 
 					sc.writeReset(fr.Stream(), RefusedStreamError)
+
+					// A refused stream has used its id up like any other: what
+					// the peer opens next has to be above it (RFC 7540 5.1.1).
+					if fr.Type() == FrameHeaders && fr.Stream() > highestRefused {
+						highestRefused = fr.Stream()
+					}
 
 					// The stream is refused, but its header block has changed the
 					// peer's HPACK table and its DATA has used the connection
